@@ -4,7 +4,7 @@ From BV Require Import Base.Prelude Model.Block Model.ForkDB Model.Forkable Mode
   Model.Burst Model.Hub Model.CursorResolver Model.Joining
   Spec.Consumer Spec.Universe Check.Burst_Check Check.C07_Check Spec.C06_Spec Spec.C07_Spec Spec.C09_Spec Spec.C13_Spec
   Spec.C07_Compose_Spec Spec.C07_Shapes_Spec Spec.C07_More_Spec Spec.C13_More_Spec
-  Proofs.C07_Shapes Proofs.C13_More Proofs.C07_FiltersTarget Proofs.C07_FiltersCursor Proofs.C07_Final Proofs.C07_FinalCursor Proofs.C07_FullRefuted Proofs.C07_TargetRefuted Properties.C07_Compose Properties.C07_More.
+  Proofs.C07_Shapes Proofs.C13_More Proofs.C07_FiltersTarget Proofs.C07_FiltersCursor Proofs.C07_Final Proofs.C07_FinalCursor Proofs.C07_FinalTarget Proofs.C07_FullRefuted Proofs.C07_TargetRefuted Properties.C07_Compose Properties.C07_More.
 Local Open Scope N_scope.
 
 (* every filter, stop block, mode, world, schedule: the three shapes of the raw sequence of a run and what the handler
@@ -68,6 +68,11 @@ Print Assumptions c13_stop_final_num.
 Theorem c13_stop_final_cursor : C13_stop_final_cursor.
 Proof. exact c13_stop_final_cursor_proof. Qed.
 Print Assumptions c13_stop_final_cursor.
+
+(* ... and through a target cursor on a final block, not beyond S *)
+Theorem c13_stop_final_target : C13_stop_final_target.
+Proof. exact c13_stop_final_target_proof. Qed.
+Print Assumptions c13_stop_final_target.
 
 (* the scope hypothesis of c13_stop_target is needed (target cursor beyond the bundle of the stop block) *)
 Theorem c13_stop_target_scope_needed : C13_stop_target_scope_needed.
